@@ -22,26 +22,37 @@ META = {
             "non-Python siblings) run through the real CLI under --max-workers {1,2,4,16} x per-file delay schedules "
             "(increasing, reversed, random: completion order differs from input order) x PYTHONHASHSEED x file creation "
             "orders; normalised report + tree must be constant; in-flight counter <= w; run(D)|f = run({f})|f; SAST-mode "
-            "selection order constant over hash seeds; every observed schedule replayed in the Coq model. "
+            "selection order constant over hash seeds (with and without Sonar issues, the latter delayed, 4 workers); a second project with a "
+            "semgrep-detected and a dependency-adding codemod under the same perturbations.  The observed schedules are run through the Coq "
+            "model: the FINAL state of the model does not depend on the trace (that is the theorem), so the replay adds power only at the "
+            "intermediate points - what each task's file held when the task started and returned must equal the model's file system at that "
+            "point of the trace (sched_points_ok) - and for the pool (submit/spawn/take/done events must be an execution of the worker "
+            "model).  Spec checks compare runs with each other (constancy); exact orders are model checks only. "
             "non-trivial = a run whose completion order differs from its input order, or a perturbed seed/creation order "
             "that yields a different enumeration, or a single-file project; distinct by (configuration, observed schedule)",
     "trusted": [
         "concurrent.futures.ThreadPoolExecutor honours max_workers (oracle; its in-flight maximum is measured every run)",
-        "the instrumentation installed by preload (wrapper around BaseCodemod._process_file, logging subclass of "
-        "ThreadPoolExecutor, wrappers of process_results/files_for_directory) does not change behaviour",
+        "the instrumentation installed by preload (wrappers around BaseCodemod._process_file and _apply, logging subclass of "
+        "ThreadPoolExecutor, wrappers of process_results/files_for_directory) does not change behaviour; the execution order is "
+        "taken from the _apply wrapper, never from log text",
         "libcst pipelines of the three codemods are functions of the file text (measured on the single-file projects)",
     ],
     "assumptions": [
         "a per-file task touches only its own file and its own FileContext (translator: sched_task_local; tested by the "
         "constancy of the results over schedules)",
-        "ThreadPoolExecutor(max_workers=b) starts a task only while fewer than b are running (tested: in-flight maximum)",
-        "set iteration order is some function of the seeded hash (model: any key function h)",
+        "ThreadPoolExecutor(max_workers=b) behaves like the worker model of Model/Sched.v: at most b threads, one item per thread at "
+        "a time (tested: the observed submit/spawn/take/done events are an execution of the model; in-flight maximum)",
+        "a pipeline's answer is a function of (path, findings, text read) (tested: oracle table measured on single-file projects "
+        "explains every run)",
+        "dict iterates in insertion order and looks keys up through hash then ==; a set is iterated in slot order "
+        "(model: buckets/slots for any hash h and table size m; CPython's probing is not modelled)",
         "worker count w >= 1",
     ],
 }
 
 IMPORTS = "From CM Require Import Harness.RunBase Harness.C11_run Model.Sched.\n"
 CODEMODS = ["pixee:python/use-set-literal", "pixee:python/use-generator", "pixee:python/literal-or-new-object-identity"]
+PD_CODEMODS = ["pixee:python/secure-random", "pixee:python/use-defusedxml"]
 CORPUS = core.VERIF / "corpus" / "C11"
 
 # ------------------------------------------------------------------------------------------------------------------
@@ -68,7 +79,8 @@ def _wrapped_pf(self, filename, context, results, rules):
     rel = _os.path.relpath(str(filename), str(context.directory))
     with _lock:
         _state["inflight"] += 1
-        _log({"ev": "start", "codemod": self.id, "file": rel, "inflight": _state["inflight"], "before": _sha(filename)})
+        _log({"ev": "start", "codemod": self.id, "file": rel, "inflight": _state["inflight"], "before": _sha(filename),
+              "thread": _th.get_ident()})
     try:
         d = _delays.get(rel, 0)
         if d:
@@ -77,8 +89,14 @@ def _wrapped_pf(self, filename, context, results, rules):
     finally:
         with _lock:
             _state["inflight"] -= 1
-            _log({"ev": "end", "codemod": self.id, "file": rel, "after": _sha(filename)})
+            _log({"ev": "end", "codemod": self.id, "file": rel, "after": _sha(filename), "thread": _th.get_ident()})
 _bc.BaseCodemod._process_file = _wrapped_pf
+_orig_apply = _bc.BaseCodemod._apply
+def _wrapped_apply(self, context, rules):
+    with _lock:
+        _log({"ev": "apply", "codemod": self.id})
+    return _orig_apply(self, context, rules)
+_bc.BaseCodemod._apply = _wrapped_apply
 _Pool = _bc.ThreadPoolExecutor
 class _LoggingPool(_Pool):
     def __init__(self, *a, **k):
@@ -198,7 +216,7 @@ def do_run(ctx, cfg):
         args += ["--sonar-issues-json", str(issues)]
         preload = PRELOAD + PRELOAD_SAST
     else:
-        args += ["--codemod-include", ",".join(CODEMODS)]
+        args += ["--codemod-include", ",".join(cfg.get("codemods") or CODEMODS)]
     if cfg.get("w") is not None:
         args += ["--max-workers", str(cfg["w"])]
     r = core.run_cli(args, env={"C11_LOG": str(log), "C11_DELAYS": json.dumps(cfg.get("delays") or {})},
@@ -212,8 +230,10 @@ def do_run(ctx, cfg):
             rep = None
     tree = {k: hashlib.sha1(v).hexdigest() for k, v in core.read_tree(proj).items()}
     text = r["stdout"] + r["stderr"]
+    # execution order: from the instrumentation (wrapper around BaseCodemod._apply); the log text is only cross-checked
     return {"cfg": cfg, "rc": r["rc"], "events": events, "report": rep, "tree": tree, "wall": r["wall"],
-            "running": re.findall(r"running codemod (\S+)", text), "stderr_tail": r["stderr"][-600:]}
+            "running": [e["codemod"] for e in events if e["ev"] == "apply"],
+            "running_log": re.findall(r"running codemod (\S+)", text), "stderr_tail": r["stderr"][-600:]}
 
 
 def norm_report(rep):
@@ -229,20 +249,26 @@ def per_codemod(res):
         if e["ev"] == "pool":
             cur_pool = e
             continue
-        if e["ev"] in ("enum", "eps"):
+        if e["ev"] in ("enum", "eps", "apply"):
             continue
         d = out.setdefault(e["codemod"], {"submit": [], "pool": [], "bound": None, "cpu": None, "merge": None,
-                                          "before": {}, "after": {}, "maxin": 0})
+                                          "before": {}, "after": {}, "maxin": 0, "pevents": [], "threads": {}})
         if e["ev"] == "submit":
             d["submit"].append(e["file"])
+            d["pevents"].append(("submit", e["file"], None))
             if cur_pool is not None:
                 d["bound"], d["cpu"] = cur_pool["bound"], cur_pool["cpu"]
         elif e["ev"] == "start":
             d["pool"].append(("S", e["file"]))
+            if e.get("thread") not in d["threads"]:
+                d["threads"][e.get("thread")] = len(d["threads"])
+                d["pevents"].append(("spawn", None, None))
+            d["pevents"].append(("take", e["file"], d["threads"][e.get("thread")]))
             d["before"][e["file"]] = e["before"]
             d["maxin"] = max(d["maxin"], e["inflight"])
         elif e["ev"] == "end":
             d["pool"].append(("F", e["file"]))
+            d["pevents"].append(("done", e["file"], d["threads"].get(e.get("thread"), 0)))
             d["after"][e["file"]] = e["after"]
         elif e["ev"] == "merge":
             d["merge"] = e["files"]
@@ -263,7 +289,9 @@ def describe(cfg):
 def replay_payload(cfg, **kw):
     return {"config": describe(cfg), "project": core.b64tree(cfg["files"]), "creation_order": cfg["order"],
             "argv": (["<dir>", "--output", "<out>", "--max-workers", str(cfg.get("w"))] +
-                     (["--sonar-issues-json", "<issues>"] if cfg.get("sast") else ["--codemod-include", ",".join(CODEMODS)])),
+                     (["--sonar-issues-json", "<issues>"] if cfg.get("sast") else
+                      ["--codemod-include", ",".join(cfg.get("codemods") or CODEMODS)])),
+            "codemods": cfg.get("codemods"),
             "env": {"PYTHONHASHSEED": str(cfg.get("seed", 0)), "C11_DELAYS": cfg.get("delays") or {}},
             "issues": cfg.get("issues"), **kw}
 
@@ -336,7 +364,9 @@ def sast_configs(ctx, tag, proj, seeds, with_issues):
                                              "message": "identity", "textRange": {"startLine": ln, "endLine": ln,
                                                                                     "startOffset": m.start(), "endOffset": m.end()}})
     return [{"name": f"{tag}_sast{'i' if with_issues else 'e'}_seed{s}", "project": tag, "files": files, "order": list(files),
-             "w": (4 if with_issues else 1), "delay_kind": "none", "delays": {}, "seed": s, "order_kind": "natural", "role": "sast",
+             "w": (4 if with_issues else 1), "delay_kind": ("random" if with_issues else "none"),
+             "delays": (delay_schedule(ctx.rng, "random", list(files), 0.03) if with_issues else {}),
+             "seed": s, "order_kind": "natural", "role": "sast",
              "sast": True, "issues": issues, "with_issues": with_issues} for s in seeds]
 
 
@@ -350,8 +380,12 @@ def c_ev_trace(pool, index):
     return clist(out, "ev")
 
 
-def c_pool_trace(pool, index):
-    return clist([("Start %d" if k == "S" else "Finish %d") % index[f] for k, f in pool], "pev")
+def c_pool_trace(pevents, index):
+    out = []
+    for kind, f, k in pevents:
+        out.append({"submit": lambda: "Submit %d" % index[f], "spawn": lambda: "Spawn", "take": lambda: "Take %d %d" % (k, index[f]),
+                    "done": lambda: "Done %d" % k}[kind]())
+    return clist(out, "pev")
 
 
 class Ids:
@@ -409,6 +443,31 @@ def run(ctx: core.Ctx):
         for i, f in enumerate(expy):
             cfgs.append({"name": f"ex_only{i}", "project": "ex", "files": {f: exfiles[f]}, "order": [f], "w": 1, "delay_kind": "none",
                          "delays": {}, "seed": 0, "order_kind": "natural", "role": "only", "only": f})
+    # a semgrep-detected codemod (secure-random) and a dependency-adding one (use-defusedxml, writes requirements.txt after
+    # the pool is drained) under delays, several workers, other seeds and creation orders
+    pd_py = {}
+    for i, name in enumerate(rng.sample(NAMES, 5 if quick else 8)):
+        lines = ["import random", "q = [3, 4]"]
+        if i % 3 != 2:
+            lines.append(f"r{i} = random.randint(0, {rng.randint(1, 99)})")
+        if i % 2 == 0:
+            lines += ["from xml.etree.ElementTree import parse", f"t{i} = parse('f{i}.xml')"]
+        if i % 3 == 2:
+            lines.append(f"u{i} = random.random() + {i}")
+        pd_py[name] = "\n".join(lines) + "\n"
+    pd_files = dict(pd_py)
+    pd_files["requirements.txt"] = "requests>=2.0\n"
+    projects["pd"] = {"py": pd_py, "other": {"requirements.txt": pd_files["requirements.txt"]}, "kinds": {}}
+    pd_natural = list(pd_files)
+    for name, w, dk, seed, ok, order in [("base", 1, "none", 0, "natural", pd_natural), ("w4_reversed", 4, "reversed", 0, "natural", pd_natural),
+                                         ("w2_random_seed2", 2, "random", 2, "natural", pd_natural),
+                                         ("w16_increasing_seed3", 16, "increasing", 3, "natural", pd_natural),
+                                         ("order_reversed", 1, "none", 0, "reversed", list(reversed(pd_natural)))] + \
+            ([] if quick else [("w3_random_seed5_shuffled", 3, "random", 5, "shuffled", rng.sample(pd_natural, len(pd_natural))),
+                               ("seed4", 1, "none", 4, "natural", pd_natural)]):
+        cfgs.append({"name": f"pd_{name}", "project": "pd", "files": pd_files, "order": order, "w": w, "delay_kind": dk,
+                     "delays": delay_schedule(rng, dk, list(pd_py), 0.04), "seed": seed, "order_kind": ok,
+                     "role": "base" if name == "base" else "perturbed", "codemods": PD_CODEMODS})
     # in-flight witness project: many files, small bound, every task sleeps
     wproj = gen_project(rng, wit["n_files"], broken=False)
     projects["wit"] = wproj
@@ -482,6 +541,20 @@ def run(ctx: core.Ctx):
                                      observed_report_sha=hashlib.sha1((obs[0] or '').encode()).hexdigest(),
                                      expected_tree=ref[1], observed_tree=obs[1], base_config=describe(base["cfg"])))
 
+    pd_base = next((r for r in results if r["cfg"]["name"] == "pd_base"), None)
+    if pd_base is not None:
+        per = {x["codemod"]: x for x in pd_base["report"]["results"]}
+        n_sem = len(per.get(PD_CODEMODS[0], {}).get("changeset", []))
+        dep = [cs["path"] for cs in per.get(PD_CODEMODS[1], {}).get("changeset", [])]
+        ctx.count("pd_semgrep_detected_changesets", n_sem)
+        ctx.count("pd_dependency_manifest_written", int("requirements.txt" in dep))
+        if n_sem == 0 or "requirements.txt" not in dep:
+            ctx.mismatch("generator coverage", f"the semgrep-detected codemod changed {n_sem} files and the dependency-adding codemod wrote "
+                         f"{dep}: the delayed runs no longer exercise a semgrep-detected and a dependency-adding codemod",
+                         replay_payload(pd_base["cfg"]))
+    elif any(c["project"] == "pd" for c in cfgs):
+        ctx.mismatch("generator coverage", "the base run of the semgrep/dependency project failed", {})
+
     # ---- 2. in-flight bound -------------------------------------------------------------------------------------------
     pool_cases, pool_meta = [], []
     for r in sorted(results, key=lambda r: r["cfg"]["project"] != "wit"):   # the corpus witness first
@@ -502,20 +575,20 @@ def run(ctx: core.Ctx):
             if any(f not in index for _, f in d["pool"]) or d["bound"] is None:
                 ctx.mismatch("pool instrumentation", f"run {c['name']}: a processed file was never submitted to the pool", replay_payload(c))
                 continue
-            pool_cases.append(cpair(cN(w), cN(d["cpu"] or 1), cN(d["bound"]), c_pool_trace(d["pool"], index)))
+            pool_cases.append(cpair(cN(w), cN(d["cpu"] or 1), cN(d["bound"]), c_pool_trace(d["pevents"], index)))
             pool_meta.append((r, cid, d))
     if pool_cases:
         bad = core.eval_bad_indices(ctx, "c11_pool", IMPORTS, "pool_case", pool_cases, ["pool_model_ok", "pool_spec_ok"])
         for i in bad["pool_model_ok"]:
             r, cid, d = pool_meta[i]
-            ctx.mismatch("ThreadPoolExecutor(...) in _apply vs Model.Sched.pool_bound/admissible",
-                         f"run {r['cfg']['name']} codemod {cid}: executor bound {d['bound']} (cpu {d['cpu']}) or its start/finish trace "
-                         f"is not what the model predicts for pool_size_arg={tables.get('pool_size_arg')}",
+            ctx.mismatch("ThreadPoolExecutor(...) in _apply vs Model.Sched.pool_bound/pool_run",
+                         f"run {r['cfg']['name']} codemod {cid}: executor bound {d['bound']} (cpu {d['cpu']}, {len(d['threads'])} threads) or its "
+                         f"submit/spawn/take/done trace is not an execution of the worker model for pool_size_arg={tables.get('pool_size_arg')}",
                          replay_payload(r["cfg"], bound=d["bound"], trace=d["pool"]))
         for i in bad["pool_spec_ok"]:
             r, cid, d = pool_meta[i]
             if d["maxin"] <= (r["cfg"]["w"] or 1):
-                ctx.mismatch("in-flight counter vs Model.Sched.max_inflight", f"run {r['cfg']['name']}: the logged counter and the trace disagree",
+                ctx.mismatch("in-flight counter vs Model.Sched.peak", f"run {r['cfg']['name']}: the logged counter and the trace disagree",
                              replay_payload(r["cfg"], trace=d["pool"]))
 
     # ---- 3. every observed schedule replayed in the model --------------------------------------------------------------
@@ -554,14 +627,19 @@ def run(ctx: core.Ctx):
                 fs1 = dict(fs)
                 fs1.update({f: s for f, s in d["after"].items() if s is not None})
                 rep = report_of(r, cid) or {"changeset": [], "failedFiles": []}
-                case = ("{| sc_files := %s; sc_fs0 := %s; sc_oracle := %s; sc_trace := %s; sc_fs1 := %s; sc_changed := %s; sc_failed := %s |}"
+                case = ("{| sc_files := %s; sc_fs0 := %s; sc_oracle := %s; sc_trace := %s; sc_fs1 := %s; sc_changed := %s; sc_failed := %s; "
+                        "sc_reads := %s; sc_afters := %s |}"
                         % (clist([cstr(f) for f in d["submit"]], "str"),
                            clist([cpair(cstr(p), ids(s)) for p, s in sorted(fs.items())], "str * str"),
                            clist(oracle[cid], "(str * str) * (option str * (bool * bool))"),
                            c_ev_trace(d["pool"], index),
                            clist([cpair(cstr(p), ids(s)) for p, s in sorted(fs1.items())], "str * str"),
                            clist([cstr(cs["path"]) for cs in rep["changeset"]], "str"),
-                           clist([cstr(x.replace("<ROOT>/", "")) for x in rep["failedFiles"]], "str")))
+                           clist([cstr(x.replace("<ROOT>/", "")) for x in rep["failedFiles"]], "str"),
+                           clist([cpair(str(index[f]), copt(ids(sha) if sha else None, "str")) for f, sha in d["before"].items()],
+                                 "nat * option str"),
+                           clist([cpair(str(index[f]), copt(ids(sha) if sha else None, "str")) for f, sha in d["after"].items()],
+                                 "nat * option str")))
                 sched_cases.append(case)
                 sched_meta.append((r, cid, d))
                 finish_order = [f for kk, f in d["pool"] if kk == "F"]
@@ -582,7 +660,13 @@ def run(ctx: core.Ctx):
                              replay_payload(c))
     if sched_cases:
         bad = core.eval_bad_indices(ctx, "c11_sched", IMPORTS, "sched_case", sched_cases,
-                                    ["sched_trace_ok", "sched_model_ok", "sched_spec_ok"], chunk=60)
+                                    ["sched_trace_ok", "sched_model_ok", "sched_points_ok", "sched_spec_ok"], chunk=60)
+        for i in bad["sched_points_ok"]:
+            r, cid, d = sched_meta[i]
+            ctx.mismatch("task locality: contents seen by the tasks vs Model.Sched.exec_states on the observed schedule",
+                         f"run {r['cfg']['name']} codemod {cid}: when a task started or returned, its file did not hold what the model's file "
+                         f"system holds at that point of the observed schedule (another task touched it, or it was rewritten before being read)",
+                         replay_payload(r["cfg"], trace=d["pool"], submitted=d["submit"], before=d["before"], after=d["after"]))
         for i in bad["sched_trace_ok"]:
             r, cid, d = sched_meta[i]
             ctx.mismatch("observed schedule vs Model.Sched.interleaving", f"run {r['cfg']['name']} codemod {cid}: the logged events are not an "
@@ -601,16 +685,30 @@ def run(ctx: core.Ctx):
                       f"order are not the per-file outcomes in input order; input {d['submit']}, reported {[cs['path'] for cs in rep['changeset']]}",
                       replay_payload(r["cfg"], trace=d["pool"], submitted=d["submit"], expected="per-file outcomes merged in input order"))
     if order_cases:
-        bad = core.eval_bad_indices(ctx, "c11_order", IMPORTS, "order_case", order_cases, ["order_model_ok", "order_spec_ok"])
+        bad = core.eval_bad_indices(ctx, "c11_order", IMPORTS, "order_case", order_cases, ["order_model_ok"])
         for i in bad["order_model_ok"]:
             r, matched, sub = order_meta[i]
             ctx.mismatch("code_directory.match_files vs Model.Sched.match_order",
                          f"run {r['cfg']['name']}: enumeration {matched} gave task order {sub}", replay_payload(r["cfg"]))
-        for i in bad["order_spec_ok"]:
-            r, matched, sub = order_meta[i]
-            violation("kf_task_order_depends_on_enumeration", f"task order {sub} is not the sorted list of the matched paths "
-                      f"(enumeration order {matched}, seed {r['cfg']['seed']}, creation order {r['cfg']['order_kind']})",
-                      replay_payload(r["cfg"], expected=sorted(matched), observed=sub))
+    # SPEC for the task order: the same in every run of the project (whatever that order is)
+    by_proj = {}
+    for r, matched, sub in order_meta:
+        by_proj.setdefault(r["cfg"]["project"], []).append((r, matched, sub))
+    const_cases, const_meta = [], []
+    for tag, lst in by_proj.items():
+        const_cases.append(clist([clist([cstr(f) for f in sub], "str") for _, _, sub in lst], "list str"))
+        const_meta.append(lst)
+    if const_cases:
+        bad = core.eval_bad_indices(ctx, "c11_order_const", IMPORTS, "const_case", const_cases, ["const_spec_ok"], chunk=10)
+        for i in bad["const_spec_ok"]:
+            lst = const_meta[i]
+            r0, m0, s0 = lst[0]
+            r1, m1, s1 = next(x for x in lst if x[2] != s0)
+            violation("kf_task_order_depends_on_enumeration",
+                      f"the order in which the files are processed differs between two runs of the same project: {s0} (run {r0['cfg']['name']}, "
+                      f"seed {r0['cfg']['seed']}, creation order {r0['cfg']['order_kind']}, enumeration {m0}) vs {s1} (run {r1['cfg']['name']}, "
+                      f"seed {r1['cfg']['seed']}, creation order {r1['cfg']['order_kind']}, enumeration {m1})",
+                      replay_payload(r1["cfg"], expected=s0, observed=s1, base_config=describe(r0["cfg"])))
 
     # ---- 4. sibling independence ---------------------------------------------------------------------------------------
     for tag in projects:
@@ -636,6 +734,7 @@ def run(ctx: core.Ctx):
 
     # ---- 5. SAST mode: default selection order over hash seeds ---------------------------------------------------------
     reg_cases, reg_meta = [], []
+    noted = set()
     from codemodder.registry import DEFAULT_EXCLUDED_CODEMODS
     for with_issues in (False, True):
         runs = [r for r in results if r["cfg"]["role"] == "sast" and r["cfg"]["with_issues"] == with_issues]
@@ -645,6 +744,17 @@ def run(ctx: core.Ctx):
         for r in runs:
             ctx.count("sast_seed:%s" % r["cfg"]["seed"])
             reported = [x["codemod"] for x in r["report"]["results"]]
+            if reported and not r["running"]:
+                ctx.mismatch("execution order instrumentation", f"run {r['cfg']['name']}: the report has {len(reported)} results but the "
+                             "wrapper around BaseCodemod._apply saw no codemod run", replay_payload(r["cfg"]))
+                continue
+            if r["running_log"] != r["running"]:
+                # log wording is not behaviour: never a verdict
+                ctx.count("log_text_differs_from_instrumented_order")
+                if "log_text" not in noted:
+                    noted.add("log_text")
+                    ctx.notes.append(f"`running codemod` log lines ({len(r['running_log'])}) do not list the instrumented execution order "
+                                     f"({len(r['running'])} codemods); the instrumented order is used")
             if r["running"] != reported:
                 violation("kf_report_order_differs_from_run_order", f"seed {r['cfg']['seed']}: codemods ran as {r['running'][:4]}... but "
                           f"are reported as {reported[:4]}...", replay_payload(r["cfg"], ran=r["running"], reported=reported))
@@ -672,17 +782,12 @@ def run(ctx: core.Ctx):
             ctx.case({"sast_seed": r["cfg"]["seed"], "selection_head": r["running"][:3], "n": len(r["running"])},
                      nontrivial_key=("sast", with_issues, r["cfg"]["seed"]), sample=(r["cfg"]["seed"] == 1))
     if reg_cases:
-        bad = core.eval_bad_indices(ctx, "c11_reg", IMPORTS, "reg_case", reg_cases, ["reg_model_ok", "reg_spec_ok"], chunk=8)
+        bad = core.eval_bad_indices(ctx, "c11_reg", IMPORTS, "reg_case", reg_cases, ["reg_model_ok"], chunk=8)
         for i in bad["reg_model_ok"]:
             r = reg_meta[i]
             ctx.mismatch("registry.load_registered_codemods/match_codemods vs Model.Sched.run_order",
                          f"seed {r['cfg']['seed']}: observed selection order is not the model's for entry_point_iteration="
                          f"{tables.get('entry_point_iteration')}", replay_payload(r["cfg"], observed_order=r["running"]))
-        for i in bad["reg_spec_ok"]:
-            r = reg_meta[i]
-            violation("kf_registry_order_depends_on_hashseed",
-                      f"SAST-mode selection order under PYTHONHASHSEED={r['cfg']['seed']} is not the entry-point sequence order: "
-                      f"starts with {r['running'][:2]}", replay_payload(r["cfg"], observed_order=r["running"]))
 
     # ---- 6. active branches of the table-indexed theorems -------------------------------------------------------------------
     negative = {
@@ -708,7 +813,7 @@ def replay(ctx, body):
     delays = body["env"]["C11_DELAYS"]
     w = conf.get("w")
     cfg = {"name": "replay", "files": files, "order": body["creation_order"], "w": w, "delays": delays, "seed": int(body["env"]["PYTHONHASHSEED"]),
-           "sast": conf.get("sast"), "issues": body.get("issues")}
+           "sast": conf.get("sast"), "issues": body.get("issues"), "codemods": body.get("codemods")}
     base = dict(cfg, name="replay_base", order=list(files), w=1, delays={}, seed=int(body.get("base_seed", 0)))
     a, b = do_run(ctx, cfg), do_run(ctx, base)
     for tag, r in (("recorded configuration", a), ("base configuration", b)):
